@@ -153,7 +153,7 @@ func init() {
 	}
 	Register(&Prop{
 		ID: "C03",
-		Rule: "Engine A: the complete product 14 primary-data kinds (nil, soft/wrapped/escape-needing resource, Resources/SoftCollection/WrapperCollection of 0..3, Identifier, Identifiers of 0/2) x 5 included lists x 4 metas x 3 error lists x 4 path prefixes (with/without trailing slash) x 3 field selections x 2 relationship-data requests; every successful marshal is parsed by an independent JSON:API structure validator (jsonapi member, self link, data xor errors, included only with data, resource-object type/id/self link = prefix+type+id, relationship links and data shape). Engine B: for 7 primary-data implementations, ALL sequences (depth <= 4 quick / 6 thorough) of Include over 7 resources colliding with primary data, with each other (same pair as a different object / implementation) or with nothing; after every Include the marshaled document is validated and no type/ID pair may appear twice. Non-trivial = distinct successful output",
+		Rule: "Engine A: the complete product 14 primary-data kinds (nil, soft/wrapped/escape-needing resource, Resources/SoftCollection/WrapperCollection of 0..3, Identifier, Identifiers of 0/2) x 5 included lists x 4 metas x 3 error lists x 6 path prefixes (with / without / with several trailing slashes) x 3 field selections x 2 relationship-data requests; every successful marshal is parsed by an independent JSON:API structure validator (jsonapi member, self link, data xor errors, included only with data, resource-object type/id/self link = prefix+type+id, relationship links and data shape). Engine B: for 7 primary-data implementations, ALL sequences (depth <= 4 quick / 6 thorough) of Include over 7 resources colliding with primary data, with each other (same pair as a different object / implementation) or with nothing; after every Include the marshaled document is validated and no type/ID pair may appear twice. Non-trivial = distinct successful output",
 		Assumptions: []string{"non-empty ids and type names", "uniqueness applies to resource objects (an identifier in data plus the full resource in included is fine)"},
 		Harnesses: hs,
 	})
